@@ -51,6 +51,9 @@ pub enum FaultAt {
     Command(usize),
     /// n-th spawn (0 = initial start)
     Spawn(usize),
+    /// r-th response-bearing command of the process started by the s-th spawn (fault sequences:
+    /// a later session is addressed independently of what earlier faults did to earlier sessions)
+    ProcResponse(usize, usize),
 }
 
 #[derive(Clone, Debug, PartialEq, Eq)]
@@ -84,13 +87,14 @@ impl FaultPlan {
     pub fn single(f: Fault) -> Self {
         FaultPlan { faults: vec![f] }
     }
-    pub fn at(&self, cmd_index: usize, resp_index: Option<usize>) -> Option<Fault> {
+    pub fn at(&self, cmd_index: usize, resp_index: Option<usize>, local: Option<(usize, usize)>) -> Option<Fault> {
         self.faults
             .iter()
             .find(|f| match &f.at {
                 FaultAt::Command(c) => *c == cmd_index,
                 FaultAt::Response(r) => Some(*r) == resp_index,
                 FaultAt::Spawn(_) => false,
+                FaultAt::ProcResponse(s, r) => Some((*s, *r)) == local,
             })
             .cloned()
     }
